@@ -57,22 +57,28 @@ static jwt_checker_t *make_checker(const Cfg &c) {
   return ch;
 }
 
-struct Case { int prov; Cfg c; Tok t; Prog p; };
+struct Case { int prov; Cfg c; Tok t; Prog p; int dirty = 0; };   // dirty: the checker is reused after 1 a failed verify (malformed token), 2 a failed verify (bad signature / unsigned), 3 a refused setkey
 static Case CUR; static std::string TOKEN;
 static std::string case_json(const Case &x) {
   std::string ops = "[", rd = "[";
   for (size_t i = 0; i < x.p.ops.size(); i++) { auto &o = x.p.ops[i]; ops += (i ? "," : "") + std::string("[") + std::to_string(o.k) + "," + std::to_string(o.a) + "," + std::to_string(o.b) + "]";
     const PV &pv = PVALS[o.b % NPV]; rd += (i ? "," : "") + jstr(std::string(PN[o.k % P_N]) + "(" + NAMES[o.a % 8] + "," + (pv.vt == 1 ? std::to_string(pv.i) : pv.s ? pv.s : "true") + ")"); }
   return "{\"prov\":" + std::to_string(x.prov) + ",\"cfg\":[" + std::to_string(x.c.key) + "," + std::to_string(x.c.iss) + "," + std::to_string(x.c.sub) + "," + std::to_string(x.c.aud) + "," + std::to_string(x.c.exp_lee) + "," + std::to_string(x.c.nbf_lee) + "],\"tok\":[" +
-         std::to_string(x.t.expk) + "," + std::to_string(x.t.nbfk) + "," + std::to_string(x.t.issk) + "," + std::to_string(x.t.subk) + "," + std::to_string(x.t.audk) + "," + std::to_string(x.t.badsig) + "],\"cb_ret\":" + std::to_string(x.p.ret) + ",\"ops\":" + ops + "],\"callback_program\":" + rd + "],\"token\":" + jstr(TOKEN) + "}";
+         std::to_string(x.t.expk) + "," + std::to_string(x.t.nbfk) + "," + std::to_string(x.t.issk) + "," + std::to_string(x.t.subk) + "," + std::to_string(x.t.audk) + "," + std::to_string(x.t.badsig) + "],\"dirty\":" + std::to_string(x.dirty) + ",\"cb_ret\":" + std::to_string(x.p.ret) + ",\"ops\":" + ops + "],\"callback_program\":" + rd + "],\"token\":" + jstr(TOKEN) + "}";
 }
 
 // returns violated clause or ""; nt set when the program touches something an enabled check reads and the verdict hinges on it
 static std::string run_case(const Case &x, bool *nt = nullptr, int *v0out = nullptr) {
   CUR = x; set_provider(x.prov); set_now(NOW);
   TOKEN = build_token(x.c, x.t);
-  jwt_checker_t *a = make_checker(x.c); int v0 = jwt_checker_verify(a, TOKEN.c_str()); jwt_checker_free(a);
-  jwt_checker_t *b = make_checker(x.c); Prog p = x.p; G_PROG = &p; G_RAN = false; jwt_checker_setcb(b, mut_cb, nullptr);
+  // both checkers have the same past: an application reuses a checker that reported a failure before, without clearing it
+  auto dirty = [&](jwt_checker_t *ch) {
+    if (x.dirty == 1) jwt_checker_verify(ch, "not-a-token");
+    else if (x.dirty == 2) { Tok bt = x.t; bt.badsig = true; std::string t = x.c.key >= 0 ? build_token(x.c, bt) : std::string("eyJhbGciOiJIUzI1NiJ9.e30.AAAA"); jwt_checker_verify(ch, t.c_str()); }
+    else if (x.dirty == 3) jwt_checker_setkey(ch, JWT_ALG_INVAL, nullptr);
+  };
+  jwt_checker_t *a = make_checker(x.c); dirty(a); int v0 = jwt_checker_verify(a, TOKEN.c_str()); jwt_checker_free(a);
+  jwt_checker_t *b = make_checker(x.c); Prog p = x.p; G_PROG = &p; G_RAN = false; jwt_checker_setcb(b, mut_cb, nullptr); dirty(b); G_RAN = false;
   int v1 = jwt_checker_verify(b, TOKEN.c_str()); int e1 = jwt_checker_error(b); jwt_checker_free(b);
   if (v0out) *v0out = v0;
   if (nt) {
@@ -127,7 +133,7 @@ int main(int argc, char **argv) {
     if (json_object_get(j.p, "kind")) { std::string d; std::string r = run_select((int)json_integer_value(json_object_get(j.p, "prov")), (int)json_integer_value(json_object_get(j.p, "key")), (int)json_integer_value(json_object_get(j.p, "algi")), (int)json_integer_value(json_object_get(j.p, "tokkind")), &d, (int)json_integer_value(json_object_get(j.p, "mode"))); return r.empty() ? 0 : 3; }
     Case x; x.prov = (int)json_integer_value(json_object_get(j.p, "prov")); json_t *c = json_object_get(j.p, "cfg"), *t = json_object_get(j.p, "tok");
     x.c = {(int)gi(c, 0), gi(c, 1) != 0, gi(c, 2) != 0, gi(c, 3) != 0, gi(c, 4), gi(c, 5)}; x.t = {(int)gi(t, 0), (int)gi(t, 1), (int)gi(t, 2), (int)gi(t, 3), (int)gi(t, 4), gi(t, 5) != 0};
-    x.p.ret = (int)json_integer_value(json_object_get(j.p, "cb_ret")); size_t i; json_t *e; json_array_foreach(json_object_get(j.p, "ops"), i, e) x.p.ops.push_back({(int)gi(e, 0), (int)gi(e, 1), (int)gi(e, 2)});
+    x.dirty = (int)json_integer_value(json_object_get(j.p, "dirty")); x.p.ret = (int)json_integer_value(json_object_get(j.p, "cb_ret")); size_t i; json_t *e; json_array_foreach(json_object_get(j.p, "ops"), i, e) x.p.ops.push_back({(int)gi(e, 0), (int)gi(e, 1), (int)gi(e, 2)});
     std::string r = run_case(x); if (!r.empty()) fprintf(stderr, "replay: %s\n", r.c_str());
     return r.empty() ? 0 : 3;
   }
@@ -143,17 +149,19 @@ int main(int argc, char **argv) {
   setenv("RC_PARAMS", params.c_str(), 1);
   Case lastfail; std::string lastwhy;
   bool ok = rc::check("C19: callback cannot bend the verdict", [&]() {
+    if (v::shrink_exhausted()) return;
     Case x; x.prov = *UNI(0, 2);
     x.c.key = *rc::gen::element(-1, 1, 4); x.c.iss = *UNI(0, 2); x.c.sub = *UNI(0, 3) == 0; x.c.aud = *UNI(0, 3) == 0; x.c.exp_lee = *rc::gen::element(0L, 0L, -1L, 50L); x.c.nbf_lee = *rc::gen::element(0L, 0L, -1L, 50L);
     auto kk = [&]() { return *rc::gen::weightedElement<int>({{2, 0}, {5, 1}, {3, 2}, {1, 3}}); };
     x.t = {kk(), kk(), kk(), kk(), kk(), *UNI(0, 5) == 0};
+    x.dirty = *rc::gen::weightedElement<int>({{4, 0}, {2, 1}, {2, 2}, {1, 3}});
     int len = *UNI(0, 9); x.p.ret = *UNI(0, 8) == 0 ? 1 + *UNI(0, 3) : 0;
     for (int i = 0; i < len; i++) x.p.ops.push_back({*UNI(0, (int)P_N), *UNI(0, 8), *UNI(0, 64)});
     bool nt = false; int v0 = 0; std::string r = run_case(x, &nt, &v0);
-    st.evaluations++; st.cls(v0 == 0 ? "baseline-accept" : "baseline-reject"); if (x.p.ret) st.cls("failing-callback");
+    st.evaluations++; st.cls(v0 == 0 ? "baseline-accept" : "baseline-reject"); if (x.p.ret) st.cls("failing-callback"); if (x.dirty) st.cls("checker-reused-after-a-failure");
     if (nt) { st.nontrivial(fnv(case_json(x))); st.cls(v0 == 0 ? "program-touches-checked-claim,token-passes" : "program-touches-checked-claim,token-fails"); }
     if (st.want_sample()) st.sample(case_json(x));
-    if (!r.empty()) { std::string sig = "C19:" + r; if (st.is_known(sig)) { st.known_hits[sig]++; return; } lastfail = x; lastwhy = r; RC_FAIL(r); }
+    if (!r.empty()) { std::string sig = "C19:" + r; if (st.is_known(sig)) { st.known_hits[sig]++; return; } lastfail = x; lastwhy = r; v::fail_seen()++; RC_FAIL(r); }
   });
   if (!ok && !lastwhy.empty()) { run_case(lastfail); st.violation("C19:" + lastwhy, "verdict with a token-mutating callback differs from the verdict without it", case_json(lastfail)); }
   return finish();
